@@ -31,7 +31,9 @@ package avltree
 //@     && (forall i, j :: 0 <= i && i < j && j < t.size ==> t.Comparator(t.nodes[i].Key, t.nodes[j].Key) < 0)
 //@     && (forall k like argof(t.Comparator, 0), i :: 0 <= i && i < t.size && t.Comparator(k, t.nodes[i].Key) == 0 ==> t.rank[k] == i)
 //@ -- balance (C07): ghost height h, stored balance factor b = h(right) - h(left), |b| <= 1
-//@ pred Hc(c) := ite(c == nil, 0, c.h)
+//@ -- height of a possibly empty subtree (clipped at 0, so that every height computed from it is at least 1 without a
+//@ -- separate non-negativity invariant)
+//@ pred Hc(c) := ite(c == nil, 0, ite(c.h < 0, 0, c.h))
 //@ pred BalInv(t) := forall x like t.Root :: x.tr == t ==> x.h == 1 + max(Hc(x.Children[0]), Hc(x.Children[1])) && x.b == Hc(x.Children[1]) - Hc(x.Children[0]) && 0 - 1 <= x.b && x.b <= 1
 //@ pred Inv(t) := ShapeInv(t) && OrderInv(t) && BalInv(t)
 //@ pred Has(t, k) := 0 <= t.rank[k] && t.rank[k] < t.size && t.Comparator(k, t.nodes[t.rank[k]].Key) == 0
@@ -257,18 +259,19 @@ package avltree
 //@   modifies nothing
 //@   ensures [C17 C18] true
 
-// ---- mutators: contracts ASSUMED (trusted), not verified: put/remove/putFix/removeFix take **Node, which is outside the
-// ---- engine's location model. They are stated so that the functions built on them (JSON) can be verified, and are backed
-// ---- only by the bounded stand-in (/verif/bounded/avl.go.tmpl), which checks exactly these clauses on every history of
-// ---- its scope. Listed under trusted_contracts in the evidence.
+// ---- mutators. Put is verified: its body calls the recursive driver put, whose contract is verified in the thorough tier
+// ---- (further below; its obligations need up to 40 s each) and assumed in the quick tier. Remove is still an ASSUMED
+// ---- (trusted) contract: remove/removeMin take pointers to key/value fields, which is outside the engine's location
+// ---- model; it is backed only by the bounded stand-in (/verif/bounded/avl.go.tmpl) and listed under trusted_contracts.
 
 //@ -- Put: insert or replace. pnew (ghost result) is the position of the entry for `key` afterwards.
 //@ func Tree.Put
-//@   trusted
 //@   modifies tree.Root, tree.size, tree.nodes, tree.rank
 //@   modifies each x like tree.Root where x.tr == tree : x.Children, x.Parent, x.lo, x.hi, x.h, x.b, x.Key, x.Value, x.pos
 //@   requires Inv(tree)
+//@   ghostvar pnew := 0
 //@   ghostresult pnew int
+//@   at after Tree.put#1: pnew := res_pnew
 //@   ensures [C01 C02 C17] Inv(tree) && tree.Comparator == old(tree.Comparator)
 //@   ensures owners: forall x like tree.Root :: fresh(x) ==> x.tr == tree || x.tr == nil
 //@   ensures [C01 C02] at: 0 <= pnew && pnew < tree.size && tree.Comparator(key, KeyAt(tree, pnew)) == 0 && ValAt(tree, pnew) == value && tree.rank[key] == pnew && KeyAt(tree, pnew) == key
@@ -426,7 +429,7 @@ package avltree
 //@   requires deref(t).b == c && deref(t).Children[Side(c)].b != c ==> deref(t).Children[Side(c)].Children[1 - Side(c)] != nil && Bal(deref(t).Children[Side(c)].Children[1 - Side(c)])
 //@   modifies deref(t)
 //@   modifies each x like deref(t) where x == old(deref(t)) || x == old(deref(t).Children[Side(c)]) || x == old(deref(t).Children[Side(c)].Children[1 - Side(c)]) : x.Children, x.Parent, x.b, x.h, x.lo, x.hi
-//@   modifies each x like deref(t) where x == old(deref(t).Children[Side(c)].Children[1 - Side(c)].Children[0]) || x == old(deref(t).Children[Side(c)].Children[1 - Side(c)].Children[1]) : x.Parent
+//@   modifies each x like deref(t) where old(deref(t).Children[Side(c)] != nil && deref(t).Children[Side(c)].Children[1 - Side(c)] != nil) && (x == old(deref(t).Children[Side(c)].Children[1 - Side(c)].Children[0]) || x == old(deref(t).Children[Side(c)].Children[1 - Side(c)].Children[1])) : x.Parent
 //@   at exit: if old(deref(t).b) == 0 then old(deref(t)).h := old(deref(t).h) + 1
 //@   -- after a rotation the subtree intervals of the (up to three) restructured nodes are recomputed bottom-up
 //@   at exit: if old(deref(t).b) == c then old(deref(t)).lo := ite(old(deref(t)).Children[0] == nil, old(deref(t)).pos, old(deref(t)).Children[0].lo)
@@ -447,6 +450,12 @@ package avltree
 //@   assert exit: forall x like deref(t) :: x.tr == old(deref(t).tr) ==> (x.Parent != nil ==> x.Parent.tr == old(deref(t).tr) && (x.Parent.Children[0] == x || x.Parent.Children[1] == x))
 //@   ensures [C07 C17] result == (old(deref(t).b) == 0)
 //@   ensures [C07] deref(t) != nil && Bal(deref(t)) && deref(t).h == old(deref(t).h) + ite(result, 1, 0)
+//@   ensures [C07] grew-leans: result ==> deref(t).b == c
+//@   -- what stays as it was (the modifies clause is a static over-approximation)
+//@   ensures other-slot: !slot_isroot(t) ==> slot_node(t).Children[1 - slot_idx(t)] == old(slot_node(t).Children[1 - slot_idx(t)])
+//@   ensures no-rotation: old(deref(t).b) != c ==> (forall x like deref(t) :: x.Children == old(x.Children) || (!slot_isroot(t) && x == slot_node(t))) && (forall x like deref(t) :: x.Parent == old(x.Parent) && x.lo == old(x.lo) && x.hi == old(x.hi)) && (forall x like deref(t) :: x != old(deref(t)) ==> x.b == old(x.b) && x.h == old(x.h))
+//@   ensures single-rotation: old(deref(t).b) == c && old(deref(t).Children[Side(c)].b) == c ==> (forall x like deref(t) :: x != old(deref(t)) && x != old(deref(t).Children[Side(c)]) ==> x.b == old(x.b) && x.h == old(x.h) && x.lo == old(x.lo) && x.hi == old(x.hi) && (x.Children == old(x.Children) || (!slot_isroot(t) && x == slot_node(t))))
+//@   ensures double-rotation: old(deref(t).b) == c && old(deref(t).Children[Side(c)].b) != c ==> Bal(deref(t)) && deref(t) == old(deref(t).Children[Side(c)].Children[1 - Side(c)])
 //@   ensures [C07] old(deref(t).b) != c ==> deref(t) == old(deref(t))
 //@   ensures [C07] old(deref(t).b) == c ==> deref(t).Parent == old(deref(t).Parent) && Bal(old(deref(t))) && Bal(old(deref(t).Children[Side(c)]))
 //@   ensures [C01 C07] shape: ShapeInv(old(deref(t).tr)) && SameSeq(old(deref(t).tr)) && SlotOK(t, old(deref(t).tr))
@@ -464,7 +473,7 @@ package avltree
 //@   requires deref(t).b == c && deref(t).Children[Side(c)].b == 0 - c ==> deref(t).Children[Side(c)].Children[1 - Side(c)] != nil && Bal(deref(t).Children[Side(c)].Children[1 - Side(c)])
 //@   modifies deref(t)
 //@   modifies each x like deref(t) where x == old(deref(t)) || x == old(deref(t).Children[Side(c)]) || x == old(deref(t).Children[Side(c)].Children[1 - Side(c)]) : x.Children, x.Parent, x.b, x.h, x.lo, x.hi
-//@   modifies each x like deref(t) where x == old(deref(t).Children[Side(c)].Children[1 - Side(c)].Children[0]) || x == old(deref(t).Children[Side(c)].Children[1 - Side(c)].Children[1]) : x.Parent
+//@   modifies each x like deref(t) where old(deref(t).Children[Side(c)] != nil && deref(t).Children[Side(c)].Children[1 - Side(c)] != nil) && (x == old(deref(t).Children[Side(c)].Children[1 - Side(c)].Children[0]) || x == old(deref(t).Children[Side(c)].Children[1 - Side(c)].Children[1])) : x.Parent
 //@   at exit: if old(deref(t).b) == 0 - c then old(deref(t)).h := old(deref(t).h) - 1
 //@   at exit: if old(deref(t).b) == c && old(deref(t).Children[Side(c)].b) == 0 then old(deref(t)).h := 1 + max(Hc(old(deref(t)).Children[0]), Hc(old(deref(t)).Children[1]))
 //@   at exit: if old(deref(t).b) == c && old(deref(t).Children[Side(c)].b) == 0 then deref(t).h := 1 + max(Hc(deref(t).Children[0]), Hc(deref(t).Children[1]))
@@ -492,3 +501,112 @@ package avltree
 
 //@   ensures [C01 C07] shape: ShapeInv(old(deref(t).tr)) && SameSeq(old(deref(t).tr)) && SlotOK(t, old(deref(t).tr))
 //@   ensures [C07] interval: deref(t).lo == old(deref(t).lo) && deref(t).hi == old(deref(t).hi)
+
+// ---- put: the recursive driver of Put (C01, C02, C07). Nothing changes on the way down; the leaf is linked at the bottom and
+// ---- the ghost sequence opens up there; on the way up each level re-balances its slot with putFix while its parent's
+// ---- balance factor is still stale ----
+
+//@ -- the slot qp belongs to parent p (or is the root slot) of tree t
+//@ pred SlotIn(qp, p, t) := (p == nil ==> slot_isroot(qp) && slot_tree(qp) == t) && (p != nil ==> !slot_isroot(qp) && slot_node(qp) == p && p.tr == t)
+//@ -- the positions the slot's subtree occupies (an empty slot is an empty gap)
+//@ pred GapLo(qp, p, t) := ite(p == nil, 0, ite(slot_idx(qp) == 0, p.lo, p.pos + 1))
+//@ pred GapHi(qp, p, t) := ite(p == nil, t.size - 1, ite(slot_idx(qp) == 0, p.pos - 1, p.hi))
+//@ pred DirOf(qp) := ite(slot_idx(qp) == 1, 1, 0 - 1)
+
+//@ -- (proof obligations of this function need up to 40 s each: verified in the thorough tier only, assumed in the quick tier)
+//@ func Tree.put
+//@   thorough-only
+//@   budget 2
+//@   requires Inv(tree) && SlotIn(qp, p, tree)
+//@   requires forall i :: 0 <= i && i < GapLo(qp, p, tree) ==> tree.Comparator(key, KeyAt(tree, i)) > 0
+//@   requires forall i :: GapHi(qp, p, tree) < i && i < tree.size ==> tree.Comparator(key, KeyAt(tree, i)) < 0
+//@   decreases GapHi(qp, p, tree) - GapLo(qp, p, tree) + 2
+//@   modifies tree.Root, tree.size, tree.nodes, tree.rank
+//@   modifies each x like tree.Root where x.tr == tree : x.Children, x.Parent, x.lo, x.hi, x.h, x.b, x.Key, x.Value, x.pos
+//@   ghostvar pnew := 0
+//@   ghostvar qpos := 0
+//@   ghostresult pnew int
+//@   at after Tree.put#1: pnew := res_pnew
+//@   at exit: if old(deref(qp)) != nil && tree.Comparator(key, old(deref(qp)).Key) == 0 then pnew := old(deref(qp).pos)
+//@   -- bottom of the recursion: the new leaf takes the gap's position; positions, intervals and ranks to its right move up
+//@   at exit: if old(deref(qp)) == nil then pnew := ite(p == nil, 0, ite(slot_idx(qp) == 0, old(p.pos), old(p.pos) + 1))
+//@   at exit: if old(deref(qp)) == nil then qpos := old(p.pos)
+//@   at exit: if old(deref(qp)) == nil then all Node.pos := \x like tree.Root => ite(x.tr == tree && old(x.pos) >= pnew, old(x.pos) + 1, x.pos)
+//@   at exit: if old(deref(qp)) == nil then all Node.lo := \x like tree.Root => ite(x.tr == tree && !(old(x.lo) <= qpos && qpos <= old(x.hi)) && old(x.lo) >= pnew, old(x.lo) + 1, x.lo)
+//@   at exit: if old(deref(qp)) == nil then all Node.hi := \x like tree.Root => ite(x.tr == tree && ((p != nil && old(x.lo) <= qpos && qpos <= old(x.hi)) || old(x.hi) >= pnew), old(x.hi) + 1, x.hi)
+//@   at exit: if old(deref(qp)) == nil then deref(qp).tr := tree
+//@   at exit: if old(deref(qp)) == nil then deref(qp).pos := pnew
+//@   at exit: if old(deref(qp)) == nil then deref(qp).lo := pnew
+//@   at exit: if old(deref(qp)) == nil then deref(qp).hi := pnew
+//@   at exit: if old(deref(qp)) == nil then deref(qp).h := 1
+//@   at exit: if old(deref(qp)) == nil then tree.nodes := \i => ite(i < pnew, old(tree.nodes[i]), ite(i == pnew, deref(qp), old(tree.nodes[i-1])))
+//@   at exit: if old(deref(qp)) == nil then tree.rank := \k like key => ite(tree.Comparator(k, key) == 0, pnew, ite(old(tree.rank[k]) >= pnew, old(tree.rank[k]) + 1, old(tree.rank[k])))
+//@   -- after the recursive call: this level's slot still holds q, q is the only stale node, its grown child is balanced
+//@   assert before putFix#1: deref(qp) == q && q != nil && q.tr == tree && Dir(arg0) && q.Children[Side(arg0)] != nil && q.Children[Side(arg0)].tr == tree && q.Children[Side(arg0)].Parent == q
+//@   assert before putFix#1: GrewStale(arg0, q) && Bal(q.Children[Side(arg0)]) && (q.Children[Side(arg0)].b != 0 || q.Children[Side(arg0)].h == 1)
+//@   assert before putFix#1: q.b == arg0 ==> q.Children[Side(arg0)].h >= 2 && q.Children[Side(arg0)].b != 0
+//@   assert before putFix#1: q.Children[Side(arg0)].b == 0 - arg0 ==> q.Children[Side(arg0)].Children[1 - Side(arg0)] != nil && q.Children[Side(arg0)].Children[1 - Side(arg0)].tr == tree && Bal(q.Children[Side(arg0)].Children[1 - Side(arg0)])
+//@   assert before putFix#1: forall x like tree.Root :: x.tr == tree && x != q ==> Bal(x)
+//@   assert before putFix#1: SlotOK(qp, tree) && (p != nil ==> p.tr == tree && p != q && q.Parent == p)
+//@   assert before putFix#1: forall x like tree.Root :: x != nil && (x == q.Children[Side(arg0)].Children[1 - Side(arg0)] || x == q.Children[Side(arg0)].Children[1 - Side(arg0)].Children[0] || x == q.Children[Side(arg0)].Children[1 - Side(arg0)].Children[1]) && q.Children[Side(arg0)].Children[1 - Side(arg0)] != nil ==> x.tr == tree
+//@   -- parent links are unique: only p points to q, only q to its grown child, only that child to its inner child
+//@   assert before putFix#1: forall x like tree.Root :: x.tr == tree && (x.Children[0] == q || x.Children[1] == q) ==> x == p
+//@   assert before putFix#1: forall x like tree.Root :: x.tr == tree && (x.Children[0] == q.Children[Side(arg0)] || x.Children[1] == q.Children[Side(arg0)]) ==> x == q
+//@   assert before putFix#1: forall x like tree.Root :: x.tr == tree && q.Children[Side(arg0)].Children[1 - Side(arg0)] != nil && (x.Children[0] == q.Children[Side(arg0)].Children[1 - Side(arg0)] || x.Children[1] == q.Children[Side(arg0)].Children[1 - Side(arg0)]) ==> x == q.Children[Side(arg0)]
+//@   focus frame:call:putFix#1:* : lemma:before-putFix*
+//@   focus lemma:after-putFix#1#* : lemma:before-putFix*, lemma:after-putFix*, putFix#1:*
+//@   ghostvar hq := 0
+//@   ghostvar r0 := p
+//@   ghostvar p0 := p
+//@   ghostvar bq := 0
+//@   at before putFix#1: hq := q.h
+//@   at before putFix#1: bq := q.b
+//@   at before putFix#1: r0 := q.Children[Side(arg0)]
+//@   at before putFix#1: p0 := q.Children[Side(arg0)].Children[1 - Side(arg0)]
+//@   assert before putFix#1: p != nil ==> p != r0 && p != p0 && p.Children[0] != r0 && p.Children[1] != r0 && (p0 != nil ==> p.Children[0] != p0 && p.Children[1] != p0)
+//@   assert before putFix#1: r0 != q && p0 != q && p0 != r0 && (p0 != nil ==> p0.tr == tree)
+//@   assert after putFix#1: deref(qp) != nil && deref(qp).tr == tree && Bal(deref(qp)) && deref(qp).h == hq + ite(callresult, 1, 0) && (callresult ==> deref(qp).b != 0)
+//@   assert after putFix#1: p != nil ==> p.tr == tree && deref(qp).Parent == p
+//@   assert after putFix#1: p != nil ==> p.b == old(p.b) && p.h == old(p.h)
+//@   assert after putFix#1: p != nil ==> p.Children[1 - slot_idx(qp)] == old(p.Children[1 - slot_idx(qp)])
+//@   assert after putFix#1: forall x like tree.Root :: x.tr == tree && x != p && x != q && x != r0 && x != p0 ==> Bal(x)
+//@   assert after putFix#1: bq != arg0 ==> deref(qp) == q && Bal(q)
+//@   assert after putFix#1: bq != arg0 ==> Bal(r0)
+//@   assert after putFix#1: bq != arg0 && p0 != nil ==> Bal(p0)
+//@   assert after putFix#1: bq == arg0 ==> Bal(q) && Bal(r0)
+//@   assert after putFix#1: bq == arg0 && p0 != nil ==> Bal(p0)
+//@   assert after putFix#1: p != nil ==> hq == old(Hc(p.Children[slot_idx(qp)])) && hq >= 1 && Hc(deref(qp)) == hq + ite(callresult, 1, 0) && Hc(p.Children[1 - slot_idx(qp)]) == old(Hc(p.Children[1 - slot_idx(qp)])) && p.Children[slot_idx(qp)] == deref(qp) && (slot_idx(qp) == 0 || slot_idx(qp) == 1)
+//@   assert after putFix#1: p != nil && !callresult ==> Bal(p)
+//@   assert after putFix#1: p != nil && callresult ==> GrewStale(DirOf(qp), p)
+//@   assert before putFix#1: forall x like tree.Root :: old(x.tr) == tree && (old(x.pos) < old(GapLo(qp, p, tree)) || old(x.pos) > old(GapHi(qp, p, tree))) ==> x != q && x != r0 && x != p0 && x.tr == tree
+//@   assert before putFix#1: forall x like tree.Root :: old(x.tr) == tree && (old(x.pos) < old(GapLo(qp, p, tree)) || old(x.pos) > old(GapHi(qp, p, tree))) ==> x.Parent == old(x.Parent) && x.b == old(x.b) && x.h == old(x.h)
+//@   assert before putFix#1: forall x like tree.Root :: old(x.tr) == tree && (old(x.pos) < old(GapLo(qp, p, tree)) || old(x.pos) > old(GapHi(qp, p, tree))) ==> x.Key == old(x.Key) && x.Value == old(x.Value) && x.Children == old(x.Children)
+//@   assert after putFix#1: forall x like tree.Root :: old(x.tr) == tree && (old(x.pos) < old(GapLo(qp, p, tree)) || old(x.pos) > old(GapHi(qp, p, tree))) && x != p ==> x.Children == old(x.Children) && x.Parent == old(x.Parent)
+//@   assert after putFix#1: forall x like tree.Root :: old(x.tr) == tree && (old(x.pos) < old(GapLo(qp, p, tree)) || old(x.pos) > old(GapHi(qp, p, tree))) && x != p ==> x.b == old(x.b) && x.h == old(x.h)
+//@   focus post:outside* : lemma:after-putFix*, lemma:before-putFix*, Tree.put#1:outside, pre:*
+//@   assert after putFix#1: forall x like tree.Root :: x.tr == tree && x != p ==> Bal(x)
+//@   focus pre@call:putFix#1:2.* : Tree.put#1:1, lemma:before-putFix*
+//@   focus post:1.* : Tree.put#1:1, putFix#1:shape, pre:*, lemma:before-putFix#1#1
+//@   focus post:at* : Tree.put#1:at, Tree.put#1:1, putFix#1:shape, pre:*
+//@   focus post:replaced* : Tree.put#1:replaced, Tree.put#1:at, putFix#1:shape, pre:*
+//@   focus post:inserted* : Tree.put#1:inserted, Tree.put#1:at, putFix#1:shape, pre:*
+//@   focus post:map* : Tree.put#1:map, Tree.put#1:at, putFix#1:shape, pre:*
+//@   focus post:owners* : Tree.put#1:owners, putFix#1:shape, pre:*
+//@   focus post:balance* : lemma:after-putFix*, lemma:before-putFix*, pre:*, Tree.put#1:balance, Tree.put#1:grown, Tree.put#1:parent-kept
+//@   ensures [C01 C02 C17] ShapeInv(tree) && OrderInv(tree) && tree.Comparator == old(tree.Comparator) && SlotIn(qp, p, tree)
+//@   ensures owners: forall x like tree.Root :: fresh(x) ==> x.tr == tree || x.tr == nil
+//@   ensures [C01 C02] at: 0 <= pnew && pnew < tree.size && tree.Comparator(key, KeyAt(tree, pnew)) == 0 && ValAt(tree, pnew) == value && tree.rank[key] == pnew && KeyAt(tree, pnew) == key
+//@   ensures [C01 C02] replaced: old(Has(tree, key)) ==> tree.size == old(tree.size) && tree.nodes == old(tree.nodes) && tree.rank == old(tree.rank) && !result
+//@     && (forall i :: 0 <= i && i < tree.size && i != pnew ==> KeyAt(tree, i) == old(KeyAt(tree, i)) && ValAt(tree, i) == old(ValAt(tree, i)))
+//@   ensures [C01 C02] inserted: !old(Has(tree, key)) ==> tree.size == old(tree.size) + 1 && fresh(tree.nodes[pnew])
+//@     && (forall i :: 0 <= i && i < pnew ==> tree.nodes[i] == old(tree.nodes[i]) && KeyAt(tree, i) == old(KeyAt(tree, i)) && ValAt(tree, i) == old(ValAt(tree, i)))
+//@     && (forall i :: pnew < i && i < tree.size ==> tree.nodes[i] == old(tree.nodes[i-1]) && KeyAt(tree, i) == old(KeyAt(tree, i-1)) && ValAt(tree, i) == old(ValAt(tree, i-1)))
+//@   ensures [C01] map: forall k like key :: (Has(tree, k) <==> old(Has(tree, k)) || tree.Comparator(k, key) == 0)
+//@     && (tree.Comparator(k, key) == 0 ==> Val(tree, k) == value) && (tree.Comparator(k, key) != 0 && old(Has(tree, k)) ==> Val(tree, k) == old(Val(tree, k)))
+//@   -- nothing outside the slot's subtree is touched (apart from the ghost positions that move up)
+//@   ensures outside: forall x like tree.Root :: old(x.tr) == tree && (old(x.pos) < old(GapLo(qp, p, tree)) || old(x.pos) > old(GapHi(qp, p, tree))) ==> x.tr == tree && x.Parent == old(x.Parent) && x.b == old(x.b) && x.h == old(x.h) && x.Key == old(x.Key) && x.Value == old(x.Value)
+//@     && (x != p ==> x.Children == old(x.Children)) && (x == p ==> x.Children[1 - slot_idx(qp)] == old(x.Children[1 - slot_idx(qp)]))
+//@   ensures root-kept: p != nil ==> tree.Root == old(tree.Root)
+//@   ensures [C07] balance: (forall x like tree.Root :: x.tr == tree && x != p ==> Bal(x)) && (p != nil && !result ==> Bal(p)) && (p != nil && result ==> GrewStale(DirOf(qp), p))
+//@   ensures [C07] grown: deref(qp) != nil && deref(qp).tr == tree && (result ==> deref(qp).b != 0 || deref(qp).h == 1)
+//@   ensures [C07] parent-kept: p != nil ==> p.b == old(p.b) && p.h == old(p.h) && p.tr == tree
